@@ -423,6 +423,10 @@ Inductive xevent :=
 | XCancelDeaf (i : nat)
                       (* cancel ctx_i where the Dial started for thread i does not listen to its context:
                          while that Dial is in flight nothing may happen; otherwise an ordinary cancel *)
+| XManager (hops : nat)
+                      (* manager family: one Add / (Reconnect)* / Remove cycle of a real manager.Manager
+                         on top of the real connection.Manager, for a target with that many distinct
+                         next hops; observation: the Dial calls of the cycle, the handles Shutdown after it *)
 | XBreak (h : nat)    (* drive handle h to TRANSIENT_FAILURE (must change nothing in the manager) *)
 | XAgain (i : nat).   (* one more goroutine calls the done function of thread i while a call of it is in flight *)
 
@@ -574,6 +578,7 @@ Definition xrun (w : wst) (xe : xevent) : wst * xobs :=
             then xignored w else run_now w (ECancel i)
         | None => run_now w (ECancel i)
         end
+  | XManager _ => xignored w
   | XBreak h =>
       if has_handle (w_s w) h && negb (mem h (w_closed w))
       then (w, XObs (quiet_obs false w) [] [])
@@ -755,7 +760,29 @@ Fixpoint add_new (l extra : list (nat * N)) : list (nat * N) :=
 Definition demote7 (l : list (nat * N)) : list (nat * N) :=
   add_new [] (map (fun x : nat * N => if N.eqb (snd x) 7 then (fst x, 1%N) else x) l).
 
+(** ** manager family: every handle a holder was given is given back
+
+    The target manager is a well-behaved holder: when a target has been removed
+    (Remove returns after its monitor has finished), every reference it took
+    from the connection manager must have been released, so every connection
+    dialled so far is closed (tag 5 otherwise); tag 6 for a panic or a Remove
+    that does not return. *)
+Fixpoint mcheck_from (n : nat) (made : list nat) (c : list (xevent * xobs)) : list (nat * N) :=
+  match c with
+  | [] => []
+  | (_, r) :: c' =>
+      let o := canon (x_o r) in
+      let made' := made ++ map fst (o_dials o) in
+      (if negb (N.eqb (o_bad o) 0) then [(n, 6%N)]
+       else if forallb (fun h => existsb (Nat.eqb h) (o_closed o)) made' then [] else [(n, 5%N)])
+      ++ mcheck_from (S n) made' c'
+  end.
+
+Definition is_mgr (c : list (xevent * xobs)) : bool :=
+  match c with (XManager _, _) :: _ => true | _ => false end.
+
 Definition xcheck_case' (c : list (xevent * xobs)) : list (nat * N) :=
+  if is_mgr c then mcheck_from 0 [] c else
   let base :=
     match unlift 0 c with
     | Some (p, bad) =>
